@@ -5,6 +5,7 @@ import AnonModel.Driver.OpsIdent
 import AnonModel.Driver.OpsQuery
 import AnonModel.Driver.OpsStatusList
 import AnonModel.Driver.OpsVerify
+import AnonModel.Driver.OpsProver
 import AnonModel.Model.Ident
 /-! Dispatch of line-protocol operations to model functions. -/
 open Lean
@@ -48,6 +49,9 @@ def step (j : Json) : Json :=
     | some r => r
     | none =>
     match stepVerify op j with
+    | some r => r
+    | none =>
+    match stepProver op j with
     | some r => r
     | none => badOp
 
